@@ -1,0 +1,125 @@
+//go:build verif
+
+// Contracts for package nsqlookupd (C14, C15), checked by /verif/cmd/nsqvc. Comment-only file.
+
+package nsqlookupd
+
+// Logging has no effect on any modelled state.
+//@ benign (*github.com/nsqio/nsq/nsqlookupd.NSQLookupd).logf
+
+// Set once when the object is built, never written afterwards (checked by an SSA sweep of the package).
+//@ immutable LookupProtocolV1.nsqlookupd, NSQLookupd.DB, NSQLookupd.opts, ClientV1.Conn, Producer.peerInfo, PeerInfo.id
+// The listeners exist (and are TCP listeners) by the time a connection is served: assumed.
+//@ func (l *NSQLookupd) RealTCPAddr() *net.TCPAddr
+//@   trusted
+//@   ensures result != nil
+//@ func (l *NSQLookupd) RealHTTPAddr() *net.TCPAddr
+//@   trusted
+//@   ensures result != nil
+//@ pred validP(p *LookupProtocolV1) := p != nil && p.nsqlookupd != nil && p.nsqlookupd.DB != nil && p.nsqlookupd.opts != nil
+//@ pred validC(c *ClientV1) := c != nil && c.Conn != nil
+
+// isFatal(err, code): err is a *protocol.FatalClientErr carrying exactly that code.
+//@ pred isFatal(err error, code string) := dyntype(err) == typetag("*protocol.FatalClientErr") && unbox(err, "*protocol.FatalClientErr").Code == code
+//@ pred fatalOrNil(err error) := err == nil || dyntype(err) == typetag("*protocol.FatalClientErr")
+
+//@ func getTopicChan(command string, params []string) (string, string, error)
+//@   props C15 C14
+//@   ensures[no-params] len(params) == 0 ==> isFatal(result2, "E_INVALID")
+//@   ensures[errors] result2 != nil ==> isFatal(result2, "E_INVALID") || isFatal(result2, "E_BAD_TOPIC") || isFatal(result2, "E_BAD_CHANNEL")
+//@   ensures[ok] result2 == nil ==> len(params) >= 1 && result0 == params[0] && (len(params) >= 2 ==> result1 == params[1]) && (len(params) < 2 ==> result1 == "")
+
+//@ func (p *LookupProtocolV1) Exec(client *ClientV1, reader *bufio.Reader, params []string) ([]byte, error)
+//@   props C15
+//@   requires validP(p) && validC(client) && len(params) >= 1
+//@   ensures fatalOrNil(result1)
+
+//@ func (p *LookupProtocolV1) PING(client *ClientV1, params []string) ([]byte, error)
+//@   props C15
+//@   requires validP(p) && validC(client)
+//@   ensures fatalOrNil(result1)
+
+//@ func (p *LookupProtocolV1) REGISTER(client *ClientV1, reader *bufio.Reader, params []string) ([]byte, error)
+//@   props C15
+//@   requires validP(p) && validC(client)
+//@   ensures fatalOrNil(result1)
+//@   ensures[identify-first] old(client.peerInfo) == nil ==> isFatal(result1, "E_INVALID")
+
+//@ func (p *LookupProtocolV1) UNREGISTER(client *ClientV1, reader *bufio.Reader, params []string) ([]byte, error)
+//@   props C15
+//@   requires validP(p) && validC(client)
+//@   ensures fatalOrNil(result1)
+//@   ensures[identify-first] old(client.peerInfo) == nil ==> isFatal(result1, "E_INVALID")
+
+//@ func (p *LookupProtocolV1) IDENTIFY(client *ClientV1, reader *bufio.Reader, params []string) ([]byte, error)
+//@   props C15
+//@   requires validP(p) && validC(client)
+//@   ensures fatalOrNil(result1)
+//@   ensures[once] old(client.peerInfo) != nil ==> isFatal(result1, "E_INVALID")
+
+//@ func (p *LookupProtocolV1) IOLoop(c protocol.Client) error
+//@   props C15
+//@   requires validP(p) && dyntype(c) == typetag("*ClientV1") && validC(unbox(c, "*ClientV1"))
+
+//@ func (rr Registrations) Keys() []string
+//@   props C14
+
+// ---------------------------------------------------------------------------------------------
+// RegistrationDB (C14). Everything below r.RWMutex: the outer map, every inner producer map.
+// Method contracts speak about the state at lock acquisition (atlock) and at release (atunlock):
+// these are the linearisation points, so they hold under any interleaving of callers.
+//@ lock RegistrationDB.RWMutex guards registrationMap, mapsof(map[Registration]ProducerMap), mapsof(ProducerMap)
+//@   invariant[map-exists] self.registrationMap != nil
+//@   invariant[inner-nonnil] forall k Registration :: {self.registrationMap[k]} has(self.registrationMap, k) ==> self.registrationMap[k] != nil && allocated(self.registrationMap[k])
+//@   invariant[inner-owned] forall k1 Registration, k2 Registration :: {self.registrationMap[k1], self.registrationMap[k2]}
+//@        has(self.registrationMap, k1) && has(self.registrationMap, k2) && k1 != k2 ==> self.registrationMap[k1] != self.registrationMap[k2]
+
+//@ pred hasKey(r *RegistrationDB, k Registration) := has(r.registrationMap, k)
+//@ pred hasProd(r *RegistrationDB, k Registration, id string) := has(r.registrationMap, k) && has(r.registrationMap[k], id)
+
+//@ func (r *RegistrationDB) AddRegistration(k Registration)
+//@   props C14
+//@   ghostparam gk Registration
+//@   ghostparam gid string
+//@   requires r != nil
+//@   ensures[added] atunlock(hasKey(r, k))
+//@   ensures[other-keys] gk != k ==> (atunlock(hasKey(r, gk)) <==> atlock(hasKey(r, gk)))
+//@   ensures[producers-kept] atunlock(hasProd(r, gk, gid)) <==> atlock(hasProd(r, gk, gid))
+
+//@ func (r *RegistrationDB) AddProducer(k Registration, p *Producer) bool
+//@   props C14
+//@   ghostparam gk Registration
+//@   ghostparam gid string
+//@   requires r != nil && p != nil && p.peerInfo != nil
+//@   ensures[was-new] result == !atlock(hasProd(r, k, p.peerInfo.id))
+//@   ensures[present] atunlock(hasProd(r, k, p.peerInfo.id))
+//@   ensures[existing-kept] atlock(hasProd(r, k, p.peerInfo.id)) ==> atunlock(r.registrationMap[k][p.peerInfo.id]) == atlock(r.registrationMap[k][p.peerInfo.id])
+//@   ensures[new-entry] !atlock(hasProd(r, k, p.peerInfo.id)) ==> atunlock(r.registrationMap[k][p.peerInfo.id]) == p
+//@   ensures[others] (gk != k || gid != p.peerInfo.id) ==> (atunlock(hasProd(r, gk, gid)) <==> atlock(hasProd(r, gk, gid)))
+//@   ensures[other-keys] gk != k ==> (atunlock(hasKey(r, gk)) <==> atlock(hasKey(r, gk)))
+
+//@ func (r *RegistrationDB) RemoveProducer(k Registration, id string) (bool, int)
+//@   props C14
+//@   ghostparam gk Registration
+//@   ghostparam gid string
+//@   requires r != nil
+//@   ensures[was-present] result0 == atlock(hasProd(r, k, id))
+//@   ensures[gone] !atunlock(hasProd(r, k, id))
+//@   ensures[remaining] atlock(hasKey(r, k)) ==> result1 == atunlock(len(r.registrationMap[k])) && result1 == atlock(len(r.registrationMap[k])) - (result0 ? 1 : 0)
+//@   ensures[absent-key] !atlock(hasKey(r, k)) ==> !result0 && result1 == 0
+//@   ensures[others] (gk != k || gid != id) ==> (atunlock(hasProd(r, gk, gid)) <==> atlock(hasProd(r, gk, gid)))
+//@   ensures[keys-kept] atunlock(hasKey(r, gk)) <==> atlock(hasKey(r, gk))
+
+//@ func (r *RegistrationDB) RemoveRegistration(k Registration)
+//@   props C14
+//@   ghostparam gk Registration
+//@   ghostparam gid string
+//@   requires r != nil
+//@   ensures[gone] !atunlock(hasKey(r, k))
+//@   ensures[other-keys] gk != k ==> (atunlock(hasKey(r, gk)) <==> atlock(hasKey(r, gk)))
+//@   ensures[others] gk != k ==> (atunlock(hasProd(r, gk, gid)) <==> atlock(hasProd(r, gk, gid)))
+
+//@ func (k Registration) IsMatch(category string, key string, subkey string) bool
+//@   props C14
+//@   ensures result == (category == k.Category && (key == "*" || k.Key == key) && (subkey == "*" || k.SubKey == subkey))
+//@   modifies
